@@ -57,6 +57,41 @@ pub fn adjust(cfg: &mut SwarmCfg, tier: &str, r: &mut Prng) {
                 cfg.knobs.push(("psk".into(), 1));
             }
         }
+        "C02" => {
+            cfg.oracles = sv(&["agreement", "recipients", "removed-cannot-follow", "record-crypto"]);
+            cfg.faults = sv(&["N-REORD", "N-RACE", "N-STALE", "N-DUP"]);
+            setw(cfg, "commit", 16);
+            setw(cfg, "propose", 10);
+            setw(cfg, "send_app", 10);
+            setw(cfg, "ext_commit", 4);
+        }
+        "C08" => {
+            cfg.oracles = sv(&["agreement", "tree-valid"]);
+            cfg.faults = sv(&["N-REORD", "N-RACE", "P-CRASH"]);
+            cfg.knobs.push(("observe-every".into(), 3));
+            setw(cfg, "commit", 16);
+            setw(cfg, "propose", 10);
+            setw(cfg, "send_app", 3);
+            setw(cfg, "crash", 1);
+            setw(cfg, "reload", 8);
+            setw(cfg, "write", 8);
+            if r.chance(1, 3) {
+                cfg.scenario = "grow-shrink-regrow".into();
+                cfg.n_parties = r.range(9, 20) as usize;
+                cfg.steps += 50;
+            }
+        }
+        "C09" => {
+            cfg.oracles = sv(&["agreement", "private-keys"]);
+            cfg.faults = sv(&["N-REORD", "N-RACE", "P-CRASH"]);
+            setw(cfg, "commit", 16);
+            setw(cfg, "propose", 12);
+            setw(cfg, "send_app", 3);
+            setw(cfg, "crash", 1);
+            setw(cfg, "reload", 8);
+            setw(cfg, "write", 8);
+            setw(cfg, "ext_commit", 4);
+        }
         "C06" => {
             cfg.oracles = sv(&["agreement", "restore"]);
             cfg.faults = sv(&["P-CRASH", "N-REORD", "N-DUP", "N-RACE", "N-STALE", "crash-with-pending"]);
